@@ -99,6 +99,11 @@ func Read(r parser.ReadSeekSizer) (Info, error) {
 		if subtableVersion != 0 || format != 0 || flags&0b11110101 != 1 {
 			continue
 		}
+		// The pairs lie inside the subtable: a pair count which reaches
+		// beyond the subtable's end is cut short there.
+		if maxPairs := (trueLength - 14) / 6; int64(nPairs) > maxPairs {
+			nPairs = uint16(maxPairs)
+		}
 		isMinimum := flags&0b00000010 != 0
 		isOverride := flags&0b00001000 != 0
 
